@@ -370,7 +370,11 @@ func c19RealReal(w *world, p *plan, V *baseNode, vp *proto, ai, bi int, bigKey, 
 	va, oka, _ := c19Expect(c19Sets[ai], bi)
 	vb, okb, _ := c19Expect(c19Sets[bi], ai)
 	agree := oka && okb && va == vb
+	// OFFER between two real nodes is judged for versions 0 and 1: the node answers a version it has no
+	// ACCEPT encoding for with ErrUnsupportedVersion by design. The uTP framing of a large FINDCONTENT
+	// has no such refusal: whatever version two real nodes settle on, the bytes must get across intact.
 	supported := agree && va <= 1
+	supportedFind := agree
 	w.op("V computes v%d(ok=%v), B computes v%d(ok=%v)", va, oka, vb, okb)
 	refusedAny := false
 	noCommon := func(server string, transferred bool, what string) {
@@ -454,7 +458,7 @@ func c19RealReal(w *world, p *plan, V *baseNode, vp *proto, ai, bi int, bigKey, 
 				continue
 			}
 			ci, _ := res.(*portalwire.ContentInfo)
-			if supported {
+			if supportedFind {
 				if err != nil || ci == nil {
 					w.violate("C19", "transfer-failed", "real pairing %s <-> %s shares version %d, but the large FindContent failed: %v", c19Name(ai), c19Name(bi), va, err)
 					continue
